@@ -3,7 +3,7 @@
 # usage: seed_confirm.sh C06 A
 set -u
 ID=$1; V=$2
-W=/tmp/seed/$ID
+W=${SEEDROOT:-/tmp/seed}/$ID
 OUT=$W/out
 export CARGO_NET_OFFLINE=true CARGO_TARGET_DIR=$W/target
 cd $W || exit 2
@@ -12,17 +12,17 @@ res() { echo "$1" ; }
 [ -f $OUT/$V.patch.diff ] || { echo "no patch"; exit 2; }
 cp $OUT/seed_demo_$V.rs examples/seed_demo_$V.rs
 # 1. demo passes without change
-cargo run -q --offline --example seed_demo_$V >/tmp/seed/$ID.$V.demo_clean.log 2>&1; DC=$?
+cargo run -q --offline --example seed_demo_$V >${SEEDROOT:-/tmp/seed}/$ID.$V.demo_clean.log 2>&1; DC=$?
 # 2. apply
 git apply $OUT/$V.patch.diff || { echo "patch does not apply"; exit 2; }
-cargo test --workspace --no-fail-fast --offline >/tmp/seed/$ID.$V.tests.log 2>&1; T=$?
-PASSED=$(grep -E '^test result' /tmp/seed/$ID.$V.tests.log | awk '{s+=$4} END{print s}')
-FAILED=$(grep -E '^test result' /tmp/seed/$ID.$V.tests.log | awk '{s+=$6} END{print s}')
-cargo run -q --offline --example seed_demo_$V >/tmp/seed/$ID.$V.demo_mut.log 2>&1; DM=$?
+cargo test --workspace --no-fail-fast --offline >${SEEDROOT:-/tmp/seed}/$ID.$V.tests.log 2>&1; T=$?
+PASSED=$(grep -E '^test result' ${SEEDROOT:-/tmp/seed}/$ID.$V.tests.log | awk '{s+=$4} END{print s}')
+FAILED=$(grep -E '^test result' ${SEEDROOT:-/tmp/seed}/$ID.$V.tests.log | awk '{s+=$6} END{print s}')
+cargo run -q --offline --example seed_demo_$V >${SEEDROOT:-/tmp/seed}/$ID.$V.demo_mut.log 2>&1; DM=$?
 git checkout -q -- src
 echo "$ID/$V demo_clean_exit=$DC tests_exit=$T passed=$PASSED failed=$FAILED demo_mutant_exit=$DM"
 if [ $DC -eq 0 ] && [ $T -eq 0 ] && [ "$FAILED" = "0" ] && [ $DM -ne 0 ]; then
-  D=/verif/seeded/$ID-$V
+  D=/verif/seeded/$ID-${TAG:-}$V
   mkdir -p $D
   cp $OUT/$V.patch.diff $D/patch.diff
   cp $OUT/seed_demo_$V.rs $D/demo.rs
@@ -33,7 +33,7 @@ try: m=json.load(open(src))
 except Exception as e: m={"note":"agent meta unreadable: %s"%e}
 out={"property":pid,"variant":v,
  "summary":m.get("summary"),"breaks":m.get("breaks"),"needs_to_manifest":m.get("needs_to_manifest"),
- "confirmed_by_me":{"worktree":"/tmp/seed/%s (removed afterwards)"%pid,
+ "confirmed_by_me":{"worktree":"scratch worktree of %s (removed afterwards)"%pid,
    "commands":["git apply patch.diff","cargo test --workspace --no-fail-fast --offline  -> %s passed, 0 failed"%passed,
                "cargo run --offline --example seed_demo_%s  -> exit %s with the change, exit 0 without"%(v,dm)]},
  "agent_commands":m.get("commands_run"),
